@@ -163,6 +163,24 @@ fn random_triples(args: &Args, n: u64, res: &mut RunResult) {
                 json!({"engine":"tok","id":id,"version":v,"sub_id":s}),
             ));
         }
+        // same_source: true exactly for equal (slot, generation), whatever the sub ids
+        let other_sub = pack(id, v, s ^ 0x5a5a);
+        if !same_source(k, other_sub) || same_source(k, k3) || same_source(k, k4) || forget_sub_id(k) != forget_sub_id(other_sub) || forget_sub_id(k) == forget_sub_id(k3) {
+            res.violations.push(viol(
+                args,
+                "same_source",
+                "source-identity-wrong",
+                format!("same_source/forget_sub_id disagree with (slot, generation) equality around ({},{},{})", id, v, s),
+                json!({"engine":"tok","id":id,"version":v,"sub_id":s}),
+            ));
+        }
+        // the generation after 65535 is 0 again, same slot, sub id cleared
+        if i & 0xff == 0 {
+            let b = unpack(bump_version(pack(id, u16::MAX, s)));
+            if b != (id, 0, 0) {
+                res.violations.push(viol(args, "version_bump", "wrap-wrong", format!("bump_version of ({},65535,{}) gives {:?}", id, s, b), json!({"engine":"tok","id":id,"version":65535,"sub_id":s})));
+            }
+        }
         if (id != 0) as u8 + (v != 0) as u8 + (s != 0) as u8 >= 2 {
             nontrivial += 1;
         }
